@@ -35,133 +35,7 @@ static reproc_redirect sym_redirect(int i)
   return r;
 }
 
-/* ---- documentation transcription ------------------------------------------ */
-
-static bool doc_is_set(reproc_redirect r)
-{
-  return r.type != REPROC_REDIRECT_DEFAULT || r.handle != 0 || r.file != NULL ||
-         r.path != NULL;
-}
-
-static bool doc_type_in_range(reproc_redirect r)
-{
-  return (unsigned) r.type <= (unsigned) REPROC_REDIRECT_PATH;
-}
-
-/* "If X is set, type must be unset or REPROC_REDIRECT_X and the others unset";
- * a type that needs a handle/file/path must have it; STDOUT only for stderr. */
-static bool doc_explicit_ok(reproc_redirect r, REPROC_STREAM s)
-{
-  int set = (r.handle != 0) + (r.file != NULL) + (r.path != NULL);
-  if (set > 1) {
-    return false;
-  }
-  if (r.handle != 0 && r.type != REPROC_REDIRECT_DEFAULT &&
-      r.type != REPROC_REDIRECT_HANDLE) {
-    return false;
-  }
-  if (r.file != NULL && r.type != REPROC_REDIRECT_DEFAULT &&
-      r.type != REPROC_REDIRECT_FILE) {
-    return false;
-  }
-  if (r.path != NULL && r.type != REPROC_REDIRECT_DEFAULT &&
-      r.type != REPROC_REDIRECT_PATH) {
-    return false;
-  }
-  if (r.type == REPROC_REDIRECT_HANDLE && r.handle == 0) {
-    return false;
-  }
-  if (r.type == REPROC_REDIRECT_FILE && r.file == NULL) {
-    return false;
-  }
-  if (r.type == REPROC_REDIRECT_PATH && r.path == NULL) {
-    return false;
-  }
-  if (r.type == REPROC_REDIRECT_STDOUT && s != REPROC_STREAM_ERR) {
-    return false;
-  }
-  return true;
-}
-
-struct doc_result {
-  bool valid;
-  REPROC_REDIRECT type[3];
-  FILE *file[3];
-  const char *path[3];
-};
-
-static struct doc_result doc_options(const reproc_options *o,
-                                     const char *const *argv)
-{
-  struct doc_result d;
-  reproc_redirect r[3] = { o->redirect.in, o->redirect.out, o->redirect.err };
-  bool parent = o->redirect.parent, discard = o->redirect.discard;
-  FILE *file = o->redirect.file;
-  const char *path = o->redirect.path;
-  d.valid = true;
-
-  /* shorthand file / path: out, err, parent, discard and the other shorthand
-   * must be unset. */
-  if (file != NULL &&
-      (doc_is_set(r[1]) || doc_is_set(r[2]) || parent || discard || path)) {
-    d.valid = false;
-  }
-  if (path != NULL &&
-      (doc_is_set(r[1]) || doc_is_set(r[2]) || parent || discard || file)) {
-    d.valid = false;
-  }
-
-  bool competes = false; /* is there a stream both parent and discard claim? */
-
-  for (int s = 0; s < 3; s++) {
-    d.file[s] = r[s].file;
-    d.path[s] = r[s].path;
-    if (!doc_explicit_ok(r[s], (REPROC_STREAM) s)) {
-      d.valid = false;
-    }
-    if (r[s].handle != 0) {
-      d.type[s] = REPROC_REDIRECT_HANDLE;
-    } else if (r[s].file != NULL) {
-      d.type[s] = REPROC_REDIRECT_FILE;
-    } else if (r[s].path != NULL) {
-      d.type[s] = REPROC_REDIRECT_PATH;
-    } else if (r[s].type != REPROC_REDIRECT_DEFAULT) {
-      d.type[s] = r[s].type;
-    } else if (s != 0 && file != NULL) {
-      d.type[s] = REPROC_REDIRECT_FILE;
-      d.file[s] = file;
-    } else if (s != 0 && path != NULL) {
-      d.type[s] = REPROC_REDIRECT_PATH;
-      d.path[s] = path;
-    } else {
-      competes = true;
-      if (parent) {
-        d.type[s] = REPROC_REDIRECT_PARENT;
-      } else if (discard) {
-        d.type[s] = REPROC_REDIRECT_DISCARD;
-      } else {
-        d.type[s] = s == 2 ? REPROC_REDIRECT_PARENT : REPROC_REDIRECT_PIPE;
-      }
-    }
-  }
-
-  if (parent && discard && competes) {
-    d.valid = false;
-  }
-
-  /* input */
-  if (o->input.data != NULL && d.type[0] != REPROC_REDIRECT_PIPE) {
-    d.valid = false;
-  }
-  if (o->input.size > 0 && o->input.data == NULL) {
-    d.valid = false;
-  }
-  /* fork / argv */
-  if (o->fork ? argv != NULL : (argv == NULL || argv[0] == NULL)) {
-    d.valid = false;
-  }
-  return d;
-}
+#include "doc_options.h"
 
 void harness(void)
 {
